@@ -377,6 +377,9 @@ func ReadFavrec(file *os.File) (favrec *FavRaw, err error) {
 	}
 
 	nFavh := favrec.getDataNumber()
+	if favrec.NBoards < 0 || favrec.NLines < 0 || favrec.NFolders < 0 || nFavh < 0 {
+		return nil, ErrInvalidFavRecord
+	}
 	favrec.LineID = 0
 	favrec.FolderID = 0
 	favrec.Favh = make([]*FavType, nFavh)
